@@ -20,11 +20,11 @@ CLAIMED = {
     "C07": dict(
         technique="Coq proof (round trip parse(render m) = meaning m by induction over the grammar; pipelining; decimal/hex length read-back) for body-less, Content-Length-framed and chunked requests and responses + differential run against net/http for the whole restricted grammar",
         text="coq/http/C07.v: for every well-formed request, and every well-formed response on the client side (status line with any code and a reason phrase of one or more words), without a body, framed by Content-Length or chunked without extensions/trailers (any method/target/protocol token/header list with OWS; any body of n < 2^62 arbitrary bytes; any list of non-empty chunks) the model parser, started in a boundary state, "
-             "emits exactly meaning(msg) - the body extracted exactly - and ends in a boundary state with the rest of the stream untouched; lifted to pipelined sequences mixing the three kinds; the parser's integer reader reads back every decimal and hex length (c07_decimal_roundtrip, c07_hex_roundtrip). Declared trailers and header blocks of arbitrary shape (any names in any order, repeated, empty values) are covered by coq/respdec/C07Trailers.v: c07_response_chunked_trailers_partial, c07_request_chunked_trailers_partial. The rest of the property's grammar "
-             "(chunk extensions, trailers, responses, the connection-close decision, message boundaries) is decided on every run by the "
+             "emits exactly meaning(msg) - the body extracted exactly - and ends in a boundary state with the rest of the stream untouched; lifted to pipelined sequences mixing the three kinds; the parser's integer reader reads back every decimal and hex length (c07_decimal_roundtrip, c07_hex_roundtrip). Chunk extensions on every size line incl. the last chunk (whitespace and ';'-introduced extension of arbitrary bytes): c07_request_chunked_ext_partial, c07_response_chunked_ext_partial. Declared trailers and header blocks of arbitrary shape (any names in any order, repeated, empty values) are covered by coq/respdec/C07Trailers.v: c07_response_chunked_trailers_partial, c07_request_chunked_trailers_partial. The rest of the property's grammar "
+             "(trailers out of order, responses, the connection-close decision, message boundaries) is decided on every run by the "
              "implementation-side oracle: nbio's real Server/ClientProcessor vs http.ReadRequest/ReadResponse on generated pipelined streams, field by field, one piece and "
              "byte-wise, plus the model/implementation correspondence on the same streams. Partial: see the _partial theorem names.",
-        note="Partial: chunk extensions, trailer lines out of declaration order, HTAB and upper-case hex are not yet theorems; the response theorem says the reason phrase is cut at its first word (what the code does; the harness compares the status code); net/http itself is not modelled (trusted reference). Projection: reason phrase ignored, Host entry of the "
+        note="Partial: trailer lines out of declaration order, HTAB in header lines, upper-case hex, and extensions together with trailers in one message are not yet theorems; the response theorem says the reason phrase is cut at its first word (what the code does; the harness compares the status code); net/http itself is not modelled (trusted reference). Projection: reason phrase ignored, Host entry of the "
              "header map ignored (Request.Host compared), framing headers compared through ContentLength/body/Trailer; OWS is SP only (HTAB finding F1 is outside the restricted grammar).",
         design="4/C07, Appendix J"),
     "C08": dict(
